@@ -22,6 +22,14 @@ def run_job(job):
 
     detail = job.get("detail")
     world = None
+    if job.get("warm"):
+        # another scenario loaded and stepped in this process first (module-level state it leaves behind must not matter)
+        w0 = World(job["warm"], gens=None, real_handlers=False, end_steps=10)
+        try:
+            with quiet():
+                hive_cosim.crank(w0.rp, 3)
+        finally:
+            w0.close()
     if job["kind"] == "spec":
         # the real built-in generators (no recording proxies here: the co-simulation generator API addresses them by class)
         world = World(job["world"], gens=None, real_handlers=False, end_steps=job["steps"] + 5)
@@ -111,6 +119,11 @@ def main():
     devnull = os.open(os.devnull, os.O_WRONLY)
     os.dup2(devnull, 1)
     sys.stdout = open(os.devnull, "w")
+    try:  # imports done before the first job arrives (the fresh worker of the pool is started one scenario ahead)
+        import hv.history, hv.props.c15, hv.worlds  # noqa: F401,E401
+        from nrel.hive.app import hive_cosim  # noqa: F401
+    except Exception:
+        pass
     for line in sys.stdin:
         line = line.strip()
         if not line:
